@@ -11,7 +11,7 @@ Nothing here looks at fakesnow.  Three small tables/functions, each taken from t
                      documented "data type mappings": FIXED scale 0 <-> int, FIXED scale>0 <-> Decimal with that scale,
                      REAL <-> float, TEXT <-> str, DATE <-> date, TIME <-> time, TIMESTAMP_NTZ <-> naive datetime,
                      TIMESTAMP_TZ/LTZ <-> aware datetime, BINARY <-> bytes, BOOLEAN <-> bool,
-                     VARIANT/OBJECT/ARRAY <-> str holding a JSON document
+                     VARIANT/OBJECT/ARRAY <-> str holding a JSON document (a list / dict is tolerated under these codes)
   select_names       names of the result columns of a select list after Snowflake's identifier rules (an unquoted
                      alias or column reference folds to upper case, a quoted one is kept verbatim); None for an
                      unaliased expression (Snowflake names those after the expression text; not demanded)
@@ -190,7 +190,13 @@ def value_consistency(v, type_code, precision, scale) -> set:
         return set() if name == "TIMESTAMP_NTZ" else {"code"}
     if p == "datetime_aware":
         return set() if name in ("TIMESTAMP_TZ", "TIMESTAMP_LTZ") else {"code"}
-    return {"pytype"}  # not a type the connector hands out (list, dict, UUID, ...): nothing can describe it
+    # the Python representation of semi-structured values is C11's business: a list / dict (instead of the connector's
+    # JSON text) is only required to sit under a semi-structured type code
+    if isinstance(v, list):
+        return set() if name in ("ARRAY", "VARIANT") else {"code"}
+    if isinstance(v, dict):
+        return set() if name in ("OBJECT", "VARIANT") else {"code"}
+    return {"pytype"}  # not a type the connector hands out (UUID, ...): nothing can describe it
 
 
 # ---- result column names ------------------------------------------------------------------------------------------------
